@@ -1,14 +1,42 @@
 """data behind MANIFEST.json (one entry per claimed property)"""
 REPO_FIX_COMMITS = []
 
+_T = 'Trusts rustc MIR construction (opt-level 0), the summaries of the core/alloc functions the crate calls (analysis/stdsum.py), the in-domain decision procedure of analysis/lin.py (Fourier-Motzkin + integer bound propagation), lengths <= isize::MAX, and user trait implementations obeying their documented contract.'
+
+
+def _c(level, ref, technique, text, note=_T):
+    return {'level': level, 'design_ref': ref, 'technique': technique, 'text': text, 'note': note}
+
+
 CHECKS = {
-    'C05': {
-        'level': 'other',
-        'design_ref': 'DESIGN.md section 7 / C05',
-        'technique': 'abstract interpretation of MIR: every panic site is a proof obligation (linear constraints, Fourier-Motzkin entailment)',
-        'text': 'Static proof obligations for panic-freedom of decap, the peek and the bundled memory over symbolic buffers and receiver states, plus consumed-length bounds at every return; all obligations must be discharged on the current tree. Decides totality and the consumed-length interval, for all inputs at once; it is not a run of the code.',
-        'note': 'Trusts rustc MIR, the summaries of ~45 core/alloc functions (analysis/stdsum.py), contract-obeying user trait implementations, lengths <= isize::MAX.',
-    },
+    'C03': _c('other', 'DESIGN.md 7/C03', 'static must-pass-through and provenance rules over an abstract interpretation of the MIR',
+              'Shows on the MIR of decap that a completed PDU of an end fragment is only constructed behind the full-width total-length equality and the CRC equality, computed over the taken storage and the first fragment\'s fields, with payloads appended at context.pdu_len. Decides the structural necessary conditions of "only verified PDUs are delivered" for every input and memory state; the burst-detection strength of CRC-32 is not a code property.'),
+    'C04': _c('other', 'DESIGN.md 7/C04', 'exit-state (typestate) rules on both label memories over abstract-interpretation path summaries',
+              'Per-transition obligations of the simulation invariant sender.last_label in {None, receiver.last_label}: mirror rule on every path of check_label_re_use, failure atomicity of encap/encap_ext, written label = decided label, receiver exit states per packet kind / label type / outcome. The induction over histories is a paper step.'),
+    'C05': _c('other', 'DESIGN.md 7/C05', 'abstract interpretation of MIR: every panic site is a proof obligation (linear constraints, Fourier-Motzkin entailment)',
+              'Static proof obligations for panic-freedom of decap, the peek and the bundled memory over symbolic buffers and receiver states, plus consumed-length bounds at every return; all obligations must be discharged. Decides totality and the consumed-length interval for all inputs at once.'),
+    'C06': _c('other', 'DESIGN.md 7/C06', 'abstract interpretation with ghost state: value obligations at the header call, write-extent tiling, layout table vs ETSI table',
+              'For every partition of encap / encap_frag / encap_ext: GSE length within 12 bits before the cast, returned length = GSE length + 2 <= buffer, written intervals disjoint and summing to the returned length, each field at its ETSI offset with the right provenance, kind matches status. The extension area of encap_ext is declined (loops).'),
+    'C07': _c('other', 'DESIGN.md 7/C07', 'footprint (who-may-call with id provenance) and frame rule on scenario path summaries',
+              'Per packet kind the memory operations performed and the provenance of the fragment id; under every slot scenario the bundled memory leaves a slot holding another id untouched. The quantifier over interleavings is the paper consequence of the frame rule.'),
+    'C08': _c('other', 'DESIGN.md 7/C08', 'ownership / drop analysis on MIR (abstract interpretation tracking storage boxes through moves)',
+              'No Drop terminator is reached on a normal edge while a place still owns a storage box obtained from the memory, on any path of decap and of the bundled memory; no clone of storage-carrying values. One known finding (save_frag refusal, needs an API change).'),
+    'C09': _c('other', 'DESIGN.md 7/C09', 'abstract interpretation: panic obligations, effect analysis at Err returns (buffer written? state changed?), must-hold facts at the header call',
+              'Panic-freedom of the five encapsulation entry points over symbolic sizes; at every Err return the output buffer is unwritten and every encapsulator field holds its initial abstract value; mandatory rejections are established before any packet is built. Loop-internal sites of encap_ext are declined and listed.'),
+    'C10': _c('other', 'DESIGN.md 7/C10', 'return-provenance table and read-extent rules over the abstract interpretation of decap',
+              'Consumed length per outcome is the decoded packet length or the buffer length as the walking rule requires; packet-level outcomes stay feasible when the buffer ends with the packet; all input slices end inside the packet; emitters never encode the padding pattern.'),
+    'C11': _c('other', 'DESIGN.md 7/C11', 'path summaries of encap_frag with linear entailment / satisfiability obligations',
+              'Every return of encap_frag classified by kind: progress (>= 1 byte), exact context advance, end packet exactly under its guard, size error only when nothing useful fits, payload windows pdu[pos..pos+n); first fragments count their payload. The call bound is the paper corollary.'),
+    'C12': _c('proof', 'DESIGN.md 7/C12', 'constant table = generated table, symbolic term of the byte step, data-dependence chain, provenance at call sites',
+              'Closed static argument that DefaultCrc is CRC-32/MPEG-2 over be(total length) | be(protocol type) | label | PDU and that the encapsulator passes these fields: 256 table words compared with the polynomial, the fold step term compared with the table-driven MSB-first step, the four chained calls and their seed, the call-site arguments.'),
+    'C14': _c('proof', 'DESIGN.md 7/C14', 'abstract evaluation of both codec functions per (kind, label type) cell with bit-field decomposition',
+              'Finite closed argument: encoder returns K(kind,lt) + length on each of 16 cells, decoder partitions the 16-bit word into 15 Some cells satisfying word = K + length (length <= 4095) and the None cell word <= 0x0FFF, unreachable arms dead; hence both round trips.'),
+    'C15': _c('other', 'DESIGN.md 7/C15', 'path summaries of check_label_re_use compared with the obligations of an inductive invariant; who-may-write rule',
+              'Substitution only when enabled and equal to the remembered label, counter strictly below max and incremented, reset when the maximum is reached, nothing substituted with an empty memory, setters clear memory and counter. The step to "never more than N consecutive" is paper induction.'),
+    'C17': _c('other', 'DESIGN.md 7/C17', 'scenario path summaries (abstract interpretation) compared with a specification table',
+              'Each SimpleGseMemory method under every scenario its contract distinguishes returns exactly the specified value and leaves slot and free list as specified (identity of context and buffer objects); no method writes buffer contents.'),
+    'C18': _c('other', 'DESIGN.md 7/C18', 'sibling cross-check: path summaries of preview and writer on shared symbolic inputs, joint satisfiability',
+              'For every jointly satisfiable pair of return partitions of (encap_preview, encap) and (encap_frag_preview, encap_frag) the results agree (error kind, packet kind, packet length, payload length); previews take no mutable reference and store through none.'),
 }
 
 _WIP = 'rule pack under construction in this session; not claimed until its check exists'
